@@ -81,3 +81,17 @@ From Cooler Require Import Gen.Translated.
 Theorem C20_float_division_source_pins : Gen.float_division_pins_binnify = true.
 Proof. reflexivity. Qed.
 Print Assumptions C20_float_division_source_pins.
+
+(** util.get_binsize as translated from util.py on every run (the loop over the per-chromosome groups with its early
+    exit, the two sets and the three decisions `len(sizes) > 1`, `len(sizes) == 1`, `max(last_sizes) > binsize`) computes
+    the model's [get_binsize] on every bin table: C20_binsize_truthful is therefore a statement about the source's own
+    decision procedure.  The set-building statements and the control-flow shape are pinned by the translator. *)
+From Cooler Require Import Proofs.GenBridgeBins.
+Theorem C20_source_get_binsize_is_model : forall t,
+  Gen.get_binsize (map (fun c => map bwidth (rows_of t c)) (chroms_of t)) = get_binsize t.
+Proof. exact gen_get_binsize_is_model. Qed.
+Print Assumptions C20_source_get_binsize_is_model.
+
+Theorem C20_get_binsize_source_pins : Gen.get_binsize_source_pins = true.
+Proof. reflexivity. Qed.
+Print Assumptions C20_get_binsize_source_pins.
